@@ -46,7 +46,7 @@ SPEC = dict(
         "stored+dropped as multisets, every reachable state, any interleaving) and C03_full (quiescent, nothing "
         "dropped => stored = accepted, each file in the hour directory of all its rows and time-sorted) under the "
         "explicit FreshNames hypothesis; witnesses for a file-name clash, Close with queued tasks, the merge "
-        "type-assert panic and the schema-cache key collision. Tied to the source by regenerated constants/shapes "
+        "type conflict (merge error) and the schema-cache key collision (fixed in 7029960). Tied to the source by regenerated constants/shapes "
         "(factgen), a differential harness of the real pure functions incl. the Parquet round trip, and trace "
         "refinement: traces of the real ArrowBuffer (1-8 writers) are replayed through the Lean LTS. "
         "Parquet encoding/decoding, the time package's calendar and sort.Slice are validated, not proved."
